@@ -17,7 +17,7 @@
 (* The conformance of the real code is NOT decided here but by             *)
 (* Fn_GlobRec!RecOK on records of the real functions (props/C28.py).          *)
 (***************************************************************************)
-EXTENDS Fn_GlobRec, Integers, VerifParams   \* VerifParams: MaxParts, MaxDepth, ListDepth, ListTriples (written by props/C28.py)
+EXTENDS Fn_GlobRec, Integers, VerifParams   \* VerifParams: MaxParts, MaxDepth, ListParts, ListDepth, ListTriples (written by props/C28.py)
 
 MinOf(S) == CHOOSE x \in S : \A y \in S : x <= y
 Strs(p)     == (IF p.abs THEN <<"/">> ELSE <<>>) \o p.comps
@@ -84,7 +84,7 @@ TwinChild    == \A pt \in Pats : \A d \in Dirs :
                   (\E p \in Below(d) : Matches(pt, p)) => OpChildMatch(OpParts(pt), Strs(d), FALSE)
 
 LAtoms == {"a", "*", "**"}
-LPats  == {[neg |-> n, abs |-> a, parts |-> ps] : n \in BOOLEAN, a \in BOOLEAN, ps \in SeqsUpTo(LAtoms, 2)}
+LPats  == {[neg |-> n, abs |-> a, parts |-> ps] : n \in BOOLEAN, a \in BOOLEAN, ps \in SeqsUpTo(LAtoms, ListParts)}
 Lists  == SeqsUpTo(LPats, 2) \cup IF ~ListTriples THEN {} ELSE {<<x, y, z>> : x \in {q \in LPats : ~q.neg /\ Len(q.parts) = 1}, y \in {q \in LPats : q.neg}, z \in {q \in LPats : ~q.neg /\ q.abs}}
 LPaths == Paths({"a", "b"}, ListDepth)
 LBelow(d) == {p \in LPaths : p.abs = d.abs /\ Len(p.comps) > Len(d.comps) /\ SubSeq(p.comps, 1, Len(d.comps)) = d.comps}
